@@ -584,6 +584,12 @@ def c16_cases(seed=0):
               conns=[dict(src="b/tg/v", tgt="a/op/r_in", W=W(3, 2, 0.0), edge=dict(tanh_e, map={"x_pre": "source"})),
                      dict(src="a/op/r", tgt="b/tg/u", W=W(2, 3, 0.0), edge=dict(sinp_e, map={"x_pre": "source"}))])
     out.append(("P8-two-different-coupling-edges", dict(coupling=True), ps))
+    # a coupling edge whose operator has TWO algebraic equations (the second uses the first in a product)
+    two_eq = dict(name="c2", eqs=[["z", "alg", ["+", V("x_pre"), N(1.0)]], ["s", "alg", ["*", V("z"), N(2.0)]]],
+                  vars={"s": ["output", 0.0], "z": ["state", 0.0], "x_pre": ["input", 0.0]})
+    ps = dict(ops=ops, pops={"a": dict(ops=["op"], n=3, params={"op/tau": het(3, 1.0, 3.0), "op/r": het(3, -0.5, 0.5)})},
+              conns=[dict(src="a/op/r", tgt="a/op/r_in", W=W(3, 3, 0.2), edge=dict(two_eq, map={"x_pre": "source"}))])
+    out.append(("P7b-coupling-edge-two-equations", dict(coupling=True), ps))
     # a coupling edge template WITH a gamma-kernel delay: the coupling function reads the delayed source
     ps = dict(ops=ops, pops={"a": dict(ops=["op"], n=3, params={"op/tau": het(3, 1.0, 3.0), "op/r": het(3, -0.5, 0.5)})},
               conns=[dict(src="a/op/r", tgt="a/op/r_in", W=W(3, 3, 0.2), d=0.1, s=0.05, edge=dict(tanh_e, map={"x_pre": "source"}))])
